@@ -17,7 +17,7 @@ from harness.lib import common
 
 PROP = 'C08'
 PROP_FILE = 'Props/C08.v'
-THEOREMS = []          # filled below
+THEOREMS = ['C08_segmentation_independent', 'C08_connection_state_independent']
 TRUSTED = []
 ASSUMPTIONS = []
 
@@ -609,7 +609,7 @@ def correspondence(ctx):
     lat_items = latin1_items(first['latin1'])
     for (base, hx), val in zip(ints, first['ints']):
         f = 'py_int16_bytes' if base == 16 else 'py_int10_str'
-        exp = 'None' if val is None else 'Some (%s)%%Z' % val
+        exp = 'None' if val is None else 'Some (%s)%%Z' % val          # hex literal
         lat_items.append('match %s (unhex "%s"), %s with Some a, Some b => Z.eqb a b | None, None => true | _, _ => false end' % (f, hx, exp))
     body = HEADER + 'Definition checks : list bool := [\n  ' + ';\n  '.join(lat_items) + '].\nEval vm_compute in (failing checks).\n'
     rc, out = common.coq_eval(body)
